@@ -33,13 +33,25 @@ pub trait Marsh:
     fn same(&self, o: &Self) -> bool;
     /// gluon literal denoting this value (None: no literal syntax, e.g. NaN)
     fn lit(&self) -> Option<String>;
-    /// gluon expression of type `gtype() -> String`
-    fn obs_fn() -> String;
+    /// gluon expression of type `gtype() -> String`; helper definitions (top-level `let`s, needed
+    /// because `match` is layout sensitive) are appended to `defs`
+    fn obs_fn(defs: &mut Vec<String>) -> String;
     /// what `obs_fn` must return for this value
     fn obs(&self) -> String;
     /// is `g` the gluon value corresponding to `self` (representation gluon code of type
     /// `gtype()` relies on)?  Err(head of the layer that is wrong).
     fn conforms(&self, g: &Gv) -> Result<(), String>;
+}
+
+/// Define a top-level observer `oN x : gt -> String = match x with | alts…`; returns its name.
+pub fn def_match(defs: &mut Vec<String>, gt: &str, alts: &[&str]) -> String {
+    let name = format!("o{}", defs.len());
+    let mut d = format!("let {} x : {} -> String =\n    match x with\n", name, gt);
+    for a in alts {
+        d.push_str(&format!("    | {}\n", a));
+    }
+    defs.push(d);
+    name
 }
 
 fn pick_gen<T: Marsh>(r: &mut Rng, random: impl FnOnce(&mut Rng) -> T) -> T {
@@ -84,7 +96,7 @@ macro_rules! int_marsh {
             fn val(&self) -> String { format!("(int {} {})", stringify!($t), self) }
             fn same(&self, o: &Self) -> bool { self == o }
             fn lit(&self) -> Option<String> { Some(int_lit(*self as i64)) }
-            fn obs_fn() -> String { "(\\x -> prim.show_int x)".into() }
+            fn obs_fn(defs: &mut Vec<String>) -> String { "(\\x -> prim.show_int x)".into() }
             fn obs(&self) -> String { format!("{}", *self as i64) }
             fn conforms(&self, g: &Gv) -> Result<(), String> {
                 match g { Gv::I(i) if *i == *self as i64 => Ok(()), _ => Err(Self::head().into()) }
@@ -119,7 +131,7 @@ impl Marsh for u8 {
     fn lit(&self) -> Option<String> {
         Some(format!("{}b", self))
     }
-    fn obs_fn() -> String {
+    fn obs_fn(defs: &mut Vec<String>) -> String {
         "(\\x -> prim.show_byte x)".into()
     }
     fn obs(&self) -> String {
@@ -156,7 +168,7 @@ impl Marsh for () {
     fn lit(&self) -> Option<String> {
         Some("()".into())
     }
-    fn obs_fn() -> String {
+    fn obs_fn(defs: &mut Vec<String>) -> String {
         "(\\x -> \"U\")".into()
     }
     fn obs(&self) -> String {
@@ -245,7 +257,7 @@ impl Marsh for f64 {
     fn lit(&self) -> Option<String> {
         f64_lit(*self)
     }
-    fn obs_fn() -> String {
+    fn obs_fn(defs: &mut Vec<String>) -> String {
         "(\\x -> prim.show_float x)".into()
     }
     fn obs(&self) -> String {
@@ -302,7 +314,7 @@ impl Marsh for f32 {
     fn lit(&self) -> Option<String> {
         f64_lit(*self as f64)
     }
-    fn obs_fn() -> String {
+    fn obs_fn(defs: &mut Vec<String>) -> String {
         "(\\x -> prim.show_float x)".into()
     }
     fn obs(&self) -> String {
@@ -348,7 +360,7 @@ impl Marsh for bool {
     fn lit(&self) -> Option<String> {
         Some(if *self { "True" } else { "False" }.into())
     }
-    fn obs_fn() -> String {
+    fn obs_fn(defs: &mut Vec<String>) -> String {
         "(\\x -> if x then \"T\" else \"F\")".into()
     }
     fn obs(&self) -> String {
@@ -388,8 +400,8 @@ impl Marsh for Ordering {
     fn lit(&self) -> Option<String> {
         Some(self.obs())
     }
-    fn obs_fn() -> String {
-        "(\\x -> match x with | LT -> \"LT\" | EQ -> \"EQ\" | GT -> \"GT\")".into()
+    fn obs_fn(defs: &mut Vec<String>) -> String {
+        def_match(defs, &Self::gtype(), &["LT -> \"LT\"", "EQ -> \"EQ\"", "GT -> \"GT\""])
     }
     fn obs(&self) -> String {
         match self {
@@ -449,7 +461,7 @@ impl Marsh for char {
             None
         }
     }
-    fn obs_fn() -> String {
+    fn obs_fn(defs: &mut Vec<String>) -> String {
         "(\\x -> prim.show_int (cp.to_int x))".into()
     }
     fn obs(&self) -> String {
@@ -531,7 +543,7 @@ impl Marsh for String {
     fn lit(&self) -> Option<String> {
         str_lit(self)
     }
-    fn obs_fn() -> String {
+    fn obs_fn(defs: &mut Vec<String>) -> String {
         "obs_str".into()
     }
     fn obs(&self) -> String {
@@ -584,11 +596,9 @@ where
             Some(x) => Some(format!("(Some {})", x.lit()?)),
         }
     }
-    fn obs_fn() -> String {
-        format!(
-            "(\\x -> match x with | None -> \"N\" | Some y -> cat3 \"S(\" ({} y) \")\")",
-            T::obs_fn()
-        )
+    fn obs_fn(defs: &mut Vec<String>) -> String {
+        let t = T::obs_fn(defs);
+        def_match(defs, &Self::gtype(), &["None -> \"N\"", &format!("Some y -> cat3 \"S(\" ({} y) \")\"", t)])
     }
     fn obs(&self) -> String {
         match self {
@@ -645,11 +655,13 @@ where
             Err(x) => Some(format!("(Err {})", x.lit()?)),
         }
     }
-    fn obs_fn() -> String {
-        format!(
-            "(\\x -> match x with | Ok y -> cat3 \"O(\" ({} y) \")\" | Err y -> cat3 \"E(\" ({} y) \")\")",
-            T::obs_fn(),
-            E::obs_fn()
+    fn obs_fn(defs: &mut Vec<String>) -> String {
+        let t = T::obs_fn(defs);
+        let e = E::obs_fn(defs);
+        def_match(
+            defs,
+            &Self::gtype(),
+            &[&format!("Ok y -> cat3 \"O(\" ({} y) \")\"", t), &format!("Err y -> cat3 \"E(\" ({} y) \")\"", e)],
         )
     }
     fn obs(&self) -> String {
@@ -705,8 +717,8 @@ where
         let v: Option<Vec<String>> = self.iter().map(|x| x.lit()).collect();
         Some(format!("[{}]", v?.join(", ")))
     }
-    fn obs_fn() -> String {
-        format!("(obs_arr {})", T::obs_fn())
+    fn obs_fn(defs: &mut Vec<String>) -> String {
+        format!("(obs_arr {})", T::obs_fn(defs))
     }
     fn obs(&self) -> String {
         let mut s = String::from("[");
@@ -780,8 +792,8 @@ macro_rules! tuple_marsh {
             fn val(&self) -> String { let v = vec![$(self.$idx.val()),+]; format!("(tuple {})", v.join(" ")) }
             fn same(&self, o: &Self) -> bool { $(self.$idx.same(&o.$idx))&&+ }
             fn lit(&self) -> Option<String> { let v = vec![$(self.$idx.lit()?),+]; Some(format!("({})", v.join(", "))) }
-            fn obs_fn() -> String {
-                let v = vec![$(format!("({} x._{})", $id::obs_fn(), $idx)),+];
+            fn obs_fn(defs: &mut Vec<String>) -> String {
+                let v = vec![$(format!("({} x._{})", $id::obs_fn(defs), $idx)),+];
                 let mut e = String::from("\")\"");
                 for (i, p) in v.iter().enumerate().rev() {
                     e = format!("(cat3 {} \"{}\" {})", p, if i + 1 == v.len() { "" } else { ";" }, e);
@@ -851,8 +863,8 @@ where
         }
         Some(e)
     }
-    fn obs_fn() -> String {
-        format!("(\\x -> cat (map_go {} x \"{{\") \"}}\")", T::obs_fn())
+    fn obs_fn(defs: &mut Vec<String>) -> String {
+        format!("(\\x -> cat (map_go {} x \"{{\") \"}}\")", T::obs_fn(defs))
     }
     fn obs(&self) -> String {
         let mut s = String::from("{");
